@@ -4,7 +4,7 @@
 From Coq Require Import List ZArith Bool Lia.
 From SVC Require Import Base.AMap Base.Res Base.Dec Model.Types Model.Pricing
   Model.Handlers Model.EndBlock Model.Step Proofs.Inv Proofs.Lemmas Proofs.InvWf
-  Proofs.DecProofs Proofs.BankLemmas.
+  Proofs.DecProofs Proofs.BankLemmas Proofs.CtxOps.
 Import ListNotations.
 Open Scope Z_scope.
 
@@ -317,7 +317,7 @@ Proof.
       (eapply BDM_core; [|exact HB]); reflexivity.
   - (* kill *) unfold h_kill, authorized in H. inv_ok H. subst.
     eapply BDM_core; [|exact HB]. reflexivity.
-  - (* update ctx *) unfold h_update_ctx, authorized in H. inv_ok H. subst.
+  - (* update ctx *) unfold h_update_ctx, update_ctx_tail, authorized in H. inv_ok H. subst.
     eapply BDM_core; [|exact HB]. reflexivity.
   - (* withdraw *) unfold h_withdraw in H. inv_ok H.
     destruct (prov =? 0).
@@ -326,6 +326,10 @@ Proof.
       destruct (get0 prov (earned s) =? get0 owner (own_earned s)); [|destruct (_ <? 0)]; inv_ok Ha; subst;
         (eapply BDM_core; [|exact HB]); reflexivity.
   - (* transfer *) unfold h_transfer in H. inv_ok H. eapply BDM_transfer; eauto; discriminate.
+  - (* module update *) mod_shape H; (eapply BDM_core; [|exact HB]); reflexivity.
+  - (* module pause *) mod_shape H; (eapply BDM_core; [|exact HB]); reflexivity.
+  - (* module start *) mod_shape H; (eapply BDM_core; [|exact HB]); reflexivity.
+  - (* module kill *) mod_shape H; (eapply BDM_core; [|exact HB]); reflexivity.
 Qed.
 
 (* ------------------------------------------------------------------ *)
